@@ -13,7 +13,7 @@
 //! result: ( doc_result ... prog_result )
 //!   doc_result  = ( status accessors nerr behaviour refresh strict lossy2 )
 //!     status    = 0 load_config_file returned Err | 1 Ok | 2 panicked while loading | 3 panicked while logging
-//!     accessors = ( ((appender_name nfilters) ... sorted) root_level (root_app ...) ((name level (app ...) additive) ... sorted) )
+//!     accessors = ( ((appender_name nfilters debug_text) ... sorted) root_level (root_app ...) ((name level (app ...) additive) ... sorted) )
 //!     nerr      = number of `log4rs: ` lines the load wrote to stderr (the lossy path's error reports)
 //!     behaviour = ( (relpath contents) ... sorted )    files below the scratch directory after logging + drop
 //!     refresh   = (0) none | (1 secs nanos) | (2) Err | (3) panic      — VerifReloader::new in a fresh directory
@@ -133,18 +133,30 @@ fn behaviour(dir: &Path) -> Val {
         .collect())
 }
 
-fn accessors(cfg: &Config) -> Val {
-    let mut apps: Vec<(String, usize)> = cfg
+fn accessors(cfg: &Config, dir: &Path) -> Val {
+    let ds = dir.to_string_lossy().to_string();
+    // the Debug rendering of the built component and filters is carried along so that the file-loaded
+    // objects can be compared with the programmatically built ones (two objects printed by the same
+    // binary: no expectation about the Debug text itself is involved)
+    let mut apps: Vec<(String, usize, String)> = cfg
         .appenders()
         .iter()
-        .map(|a| (a.name().to_string(), a.filters().len()))
+        .map(|a| {
+            (
+                a.name().to_string(),
+                a.filters().len(),
+                format!("{:?} {:?}", a.appender(), a.filters()).replace(&ds, "@D@"),
+            )
+        })
         .collect();
     apps.sort();
     let refs = |v: &[String]| Val::L(v.iter().map(|s| Val::text(s)).collect());
     let mut ls: Vec<&Logger> = cfg.loggers().iter().collect();
     ls.sort_by(|a, b| a.name().cmp(b.name()));
     Val::L(vec![
-        Val::L(apps.iter().map(|(n, k)| Val::L(vec![Val::text(n), Val::N(*k as u128)])).collect()),
+        Val::L(apps.iter()
+            .map(|(n, k, d)| Val::L(vec![Val::text(n), Val::N(*k as u128), Val::text(d)]))
+            .collect()),
         Val::N(level_filter_n(cfg.root().level())),
         refs(cfg.root().appenders()),
         Val::L(ls.iter()
@@ -231,7 +243,7 @@ fn run_doc(root: &Path, k: usize, ext: &str, text: &str, probes: &[Val], files: 
         None => (2u128, Val::L(vec![]), 0, Val::L(vec![])),
         Some((Err(_), _)) => (0, Val::L(vec![]), 0, Val::L(vec![])),
         Some((Ok(cfg), bytes)) => {
-            let acc = accessors(&cfg);
+            let acc = accessors(&cfg, &dir);
             let ok = drive(cfg, probes, &dir);
             (if ok { 1 } else { 3 }, acc, count_reports(&bytes), behaviour(&dir))
         }
@@ -399,7 +411,7 @@ fn run_prog(root: &Path, lc: &Val, probes: &[Val], files: &[Val]) -> Val {
         None => Val::L(vec![Val::N(2), Val::L(vec![]), Val::N(0), Val::L(vec![])]),
         Some(Err(_)) => Val::L(vec![Val::N(0), Val::L(vec![]), Val::N(0), Val::L(vec![])]),
         Some(Ok(cfg)) => {
-            let acc = accessors(&cfg);
+            let acc = accessors(&cfg, &dir);
             let ok = drive(cfg, probes, &dir);
             Val::L(vec![Val::N(if ok { 1 } else { 3 }), acc, Val::N(0), behaviour(&dir)])
         }
